@@ -547,14 +547,21 @@ PROPS.update({
 HYB_NOTE = ("trusted: Lean kernel; axioms propext/Classical.choice/Quot.sound; harness + sim io engine + driver; the model is "
             "hand-written and tied to /repo by trace validation only; ")
 CLAIMS.update({
-    "C01": {"text": "Lean 4 theorems about the hybrid model's disk tier: recovery keeps per hash the copy with the highest "
-                    "sequence unless a logged tombstone is at least as new, a disk lookup answers with the requested key's own "
-                    "value or misses, memory shadows the lower tiers — for all device contents and states. Tied to /repo by "
-                    "replaying random hybrid histories (hold / gate / reclaim / reopen windows) on the model and by the "
-                    "stale/foreign/removed-value monitors evaluated on the real HybridCache's trace",
-            "note": HYB_NOTE + "PARTIAL: the end-to-end refinement theorem (every lookup returns the register value) is not "
-                    "proved yet; concurrency of callers is not modelled; D10 / D11 / tombstone-log-off are known findings",
-            "technique": "Lean 4 proof (sequence-guarded index / recovery lemmas) + trace-validating correspondence with property monitors"},
+    "C01": {"text": "Lean 4 refinement theorems: the hybrid model (arbitrary Lawful memory policy, arbitrary hasher, any "
+                    "capacity) refines a per-key register - every lookup answers a miss or the value of the latest completed "
+                    "write not followed by a remove / clear - for every history of insert (any size, any advice but in-memory-only "
+                    "on the observed key), storage-writer insert, remove, clear, get, get_or_fetch, evict, contains, wait and "
+                    "disk-capacity evictions, under write-on-insertion (woi_reads_truth) and write-on-eviction (woe_reads_truth), "
+                    "and across any number of graceful restarts with the tombstone log on (woi_reads_truth_reopen; "
+                    "woe_reads_truth_reopen for flush-on-close and draining policies); plus the recovery lemmas (newest copy "
+                    "per hash unless a logged tombstone is as new; recovery complete). Tied to /repo by replaying random hybrid "
+                    "histories (hold / gate / reclaim / reopen windows, colliding hashers, oversize values, reinsertion, block "
+                    "reuse, lookups with a device read in flight) on the model and by the stale / foreign / removed-value "
+                    "monitors evaluated on the real HybridCache's trace",
+            "note": HYB_NOTE + "PARTIAL: the refinement theorems assume an idle flusher at every call boundary (histories "
+                    "with a held flusher or gated device writes are covered by correspondence and monitors only) and "
+                    "sequential callers; D10 / D11 / tombstone-log-off are known findings",
+            "technique": "Lean 4 proof (register refinement by invariant over all histories; disk-side invariant index = recovery view) + trace-validating correspondence with property monitors"},
     "C12": {"text": "Lean 4 theorems about the hybrid model: in every history nothing advised in-memory-only is ever submitted "
                     "to the disk tier (close included); under write-on-insertion evictions submit nothing; under "
                     "write-on-eviction an operation that evicts nothing submits nothing; entries just loaded from disk are "
@@ -566,9 +573,11 @@ CLAIMS.update({
                     "flush takes out of memory (not in-memory-only, not just loaded, not oversize) is on the device when close "
                     "returns, whatever the flusher state; close drains the queue; without flush-on-close close submits nothing; "
                     "the reopened index is the recovery of the device (newest copy per hash). Tied to /repo by close+reopen "
-                    "heavy histories on the real HybridCache compared with the model",
-            "note": HYB_NOTE + "PARTIAL: that the closing flush takes *every* resident entry is policy-specific and only "
-                    "checked by correspondence; idempotence of close / writes after close are not exercised yet",
+                    "heavy histories on the real HybridCache compared with the model (also close() raced with gated device "
+                    "writes); the restart theorems of C01 (reopen_view, woi/woe_reads_truth_reopen) and flush_lookup_none "
+                    "(the closing flush empties memory for draining policies, proved for FIFO) are part of this claim",
+            "note": HYB_NOTE + "PARTIAL: for policies other than FIFO that the closing flush takes *every* resident entry is "
+                    "checked by correspondence only; idempotence of close / writes after close are not exercised",
             "technique": "Lean 4 proof (pending-entry invariant through close) + trace-validating correspondence across reopen"},
 })
 PROPS.update({
@@ -716,7 +725,10 @@ CLAIMS.update({
     "C04": {"text": "Lean 4 theorems about the recovery model: whatever the device holds, the scanner and the per-block recovery "
                     "only return entries listed in blob index pages that are on the device; recovery keeps per hash the copy with the "
                     "highest sequence unless a logged tombstone is at least as new; a block written in sequence order is read back "
-                    "exactly. Tied to /repo by exhaustive crash-point enumeration: for every prefix (and page tear) of the write log "
+                    "exactly; for every pair of prefixes of the model's device log and tombstone log (a superset of the crash "
+                    "points): what is served was written before the crash, an entry on the device before the crash is recovered or "
+                    "something newer of its hash is (never an older copy), a logged delete survives (crash_acked_or_newer, "
+                    "crash_delete_survives, recovery_complete). Tied to /repo by exhaustive crash-point enumeration: for every prefix (and page tear) of the write log "
                     "of generated workloads the reopened real store's reads equal the model's, and satisfy the C04 monitor (no "
                     "garbage, acknowledged versions/deletes survive while nothing was reclaimed, post-restart writes win)",
             "note": "trusted: Lean kernel; axioms propext/Classical.choice/Quot.sound; harness + sim io engine + driver; PARTIAL: "
